@@ -279,6 +279,7 @@ pub fn run(cx: &RunCtx) -> i32 {
     let kids: Vec<G> = kb.up_to(cx.t(2, 3));
     let nk = kids.len();
     let pair_bufs: Vec<Buf> = all_inputs(&alpha, cx.t(3, 4)).iter().map(|w| Buf::new(w)).collect();
+    let ext_stride = cx.t(1, 24);
     let pacc = for_each_index(nk * nk, cx.threads, 8, |acc, idx| {
         let (ga, gb) = (&kids[idx / nk], &kids[idx % nk]);
         // distinct ids so that probes of a and b are distinguishable
@@ -328,6 +329,11 @@ pub fn run(cx: &RunCtx) -> i32 {
                 for (lead, trail) in [(false, false), (true, true), (true, false), (false, true)] {
                     for (lo, hi) in [(0usize, None), (0, Some(1usize)), (1, Some(2)), (2, Some(2)), (0, Some(0))] {
                         if (lead != trail || hi == Some(0)) && idx % 2 == 1 {
+                            continue;
+                        }
+                        // the thorough tier has ~10^3 times more (a, b) pairs: the extended combinations on a sample of them
+                        let basic = lead == trail && (lo, hi) == (0, None);
+                        if !basic && (idx / nk + idx % nk) % ext_stride != 0 {
                             continue;
                         }
                         let sep = |p, s| sep_of(p, s, lead, trail, lo, hi);
